@@ -259,6 +259,12 @@ class FloatTag(Fraction):
   Only isinstance(v, float/int) tests observe the difference."""
 
 
+class NpFloat(FloatTag):
+  """A numpy float64 scalar (e.g. the result of np.max(np.abs(w)) handed to
+  a constructor): str() prints it like a python float, repr() prints
+  "np.float64(...)" (NumPy >= 2)."""
+
+
 # developer aid: which repository functions the interpreter entered
 # (QKSTAT_COVER=<file> appends them at exit)
 COVERAGE = None
@@ -734,6 +740,12 @@ class PE(object):
         return self.eval(expr, [{}], owner.module)
       if name == "__name__":
         return obj.cls.name
+      if "<external-super>." + name in (getattr(self, "ext_overrides", None)
+                                         or {}):
+        # a classmethod inherited from an external base (keras from_config)
+        # that the rule models
+        self.external_super_self = obj
+        return Ext("<external-super>." + name)
       raise PyRaise("AttributeError", "class %s has no attribute %s" %
                     (obj.cls.name, name))
     if isinstance(obj, ModuleRef):
@@ -937,6 +949,10 @@ class PE(object):
         return NDArr(r)
       return NArr(r)
     idx = self.index_key(self.eval(node.slice, frames, module))
+    if isinstance(obj, NArr) and isinstance(idx, list) and \
+        len(idx) == len(obj) and all(isinstance(b, bool) for b in idx):
+      # numpy boolean-mask selection
+      return NArr([v for v, b in zip(obj, idx) if b])
     if isinstance(obj, ShapeV):
       return obj.dims[idx]
     if isinstance(obj, (list, tuple, str)):
@@ -1736,7 +1752,7 @@ def local_names(fn):
 
 BUILTINS = {
     "eval", "exec", "compile", "__import__", "globals", "isinstance", "len", "range", "list", "tuple", "dict", "float", "int",
-    "str", "abs", "max", "min", "pow", "hasattr", "getattr", "zip",
+    "str", "repr", "abs", "max", "min", "pow", "hasattr", "getattr", "zip",
     "enumerate", "callable", "bool", "print", "sum", "sorted", "type", "any",
     "all", "round", "set", "super", "object", "ValueError", "TypeError",
     "AttributeError", "AssertionError", "SyntaxError", "Exception", "cast",
